@@ -550,9 +550,12 @@ def _type_based_yield(
     *,
     seen_paths: set[str],
 ) -> Iterator[Breakage]:
-    if old_member.path in seen_paths:
+    # Two different objects can be reached through the same old path (an object replaced by an alias,
+    # a member inherited from the same parent by two classes that now differ): key on both sides.
+    seen_key = f"{old_member.path}\0{new_member.path}"
+    if seen_key in seen_paths:
         return
-    seen_paths.add(old_member.path)
+    seen_paths.add(seen_key)
     if old_member.is_alias or new_member.is_alias:
         # Should be first, since there can be the case where there is an alias and another kind of object,
         # which may not be a breaking change.
